@@ -126,6 +126,18 @@ Theorem C02_retry_completes_C01 :
 Proof. exact fretry_completes_spec. Qed.
 Print Assumptions C02_retry_completes_C01.
 
+(* The fault-extended system is a conservative extension of the transition system of C01/C04:
+   a trace without fault events is accepted by Model/CopyFault.v (as CopyGraph/Copy) exactly
+   when Model/CopySpec.v accepts it, with the same final state. *)
+Theorem C02_conservative_over_CopySpec :
+  forall (g : graph) (c : cfg) (d0 : list node) (tr : list event),
+    match accepts g c d0 tr with
+    | Some st => exists fs, faccepts g c false d0 (map Ev tr) = Some fs /\ fb fs = st
+    | None => faccepts g c false d0 (map Ev tr) = None
+    end.
+Proof. exact faccepts_conservative. Qed.
+Print Assumptions C02_conservative_over_CopySpec.
+
 (* The hypotheses are satisfiable and the runs are not vacuous: a shared-successor DAG
    (R -> A, B; A -> C, D; B -> C) whose push of C fails AFTER the content was stored while D
    is in flight; the call returns an error with {C, D} in the (closed) destination; the rerun
